@@ -187,6 +187,11 @@ func runCheck(e *Engine, args []string, tier string, timeout int, verif string) 
 		if hasProp(ob.Props, prop) || ob.Kind == "cover" {
 			return true
 		}
+		// a tag "Cxx:t" puts a clause into the thorough tier of Cxx only (obligations whose proofs take tens of
+		// seconds when the machine is loaded; in the quick tier they are assumed like any other invariant)
+		if tier == "thorough" && hasProp(ob.Props, prop+":t") {
+			return true
+		}
 		return tier == "thorough" && (ob.Kind == "inv-init" || ob.Kind == "inv-pres")
 	})
 	var clauseDrift []string
